@@ -278,6 +278,8 @@ class ndarray:
             return ndarray(self.d[i * m:(i + 1) * m])
         if isinstance(key, ndarray) and key.ndim == 2 and key.shape == self.shape:
             return ndarray([x for x, b in zip(self.d, key.d) if bool(b)])
+        if self.ndim == 1 and _symbolic_mask(key, len(self.d)):
+            return MaskedSel(self.d, _flat(key))
         rows = self._rows(key)
         if self.ndim == 1:
             return ndarray([self.d[i] for i in rows], dtype=self.dtype)
@@ -293,6 +295,17 @@ class ndarray:
                 raise IndexError('index %d is out of bounds for axis 0 with size %d' % (i, len(self.d)))
             self.d[i] = val
             return
+        if _symbolic_mask(key, len(self.d)):
+            # state merging (np.where semantics): out[mask] = v  ==>  out_i = ite(mask_i, v_i, out_i)
+            mask = _flat(key)
+            if isinstance(val, MaskedSel) and val.same_mask(mask):
+                for i, b in enumerate(mask):
+                    self.d[i] = ite(b, val.full[i], self.d[i]) if isinstance(b, SymBool) else (val.full[i] if b else self.d[i])
+                return
+            if _scal(val):
+                for i, b in enumerate(mask):
+                    self.d[i] = ite(b, val, self.d[i]) if isinstance(b, SymBool) else (val if b else self.d[i])
+                return
         rows = self._rows(key)
         if isinstance(val, (ndarray, list, tuple)) or _is_series(val):
             v = _flat(val)
@@ -342,6 +355,61 @@ class ndarray:
 
     def __repr__(self):
         return '<ndarray %s>' % (self.shape,)
+
+
+def _symbolic_mask(key, n):
+    if not (isinstance(key, (ndarray, list)) or _is_series(key)):
+        return False
+    k = _flat(key)
+    return len(k) == n and n > 0 and builtins.all(_isboolish(b) for b in k) and \
+        builtins.any(isinstance(b, SymBool) for b in k)
+
+
+class MaskedSel(ndarray):
+    """a[mask] with an undecided symbolic mask: kept as (full-length values, mask) so that the idiom
+    out[mask] = f(a[mask]) becomes an element-wise if-then-else instead of 2^n forks. Any use that
+    needs the actual selection (length, iteration, reductions) materialises it by forking."""
+
+    def __init__(self, full, mask):
+        self.full = list(full)
+        self.mask = list(mask)
+        self._mat = None
+        self.dtype = None
+
+    def same_mask(self, mask):
+        if len(mask) != len(self.mask):
+            return False
+        for a, b in zip(mask, self.mask):
+            if isinstance(a, SymBool) != isinstance(b, SymBool):
+                return False
+            if isinstance(a, SymBool):
+                if a.e.get_id() != b.e.get_id():
+                    return False
+            elif bool(a) != bool(b):
+                return False
+        return True
+
+    @property
+    def d(self):
+        if self._mat is None:
+            self._mat = [x for x, b in zip(self.full, self.mask) if bool(b)]
+        return self._mat
+
+    @property
+    def shape(self):
+        return (len(self.d),)
+
+    def _bin(self, o, f):
+        if isinstance(o, MaskedSel) and o.same_mask(self.mask):
+            return MaskedSel([f(a, b) for a, b in zip(self.full, o.full)], self.mask)
+        if _scal(o):
+            return MaskedSel([f(a, o) for a in self.full], self.mask)
+        return ndarray(self.d)._bin(o, f)
+
+    def __neg__(self): return MaskedSel([-a for a in self.full], self.mask)
+    def __abs__(self): return MaskedSel([builtins.abs(a) for a in self.full], self.mask)
+    def copy(self): return MaskedSel(self.full, self.mask)
+    def astype(self, t): return MaskedSel([f_cast(x, t) for x in self.full], self.mask)
 
 
 # -------------------------------------------------------------------------------- conversions
@@ -665,6 +733,8 @@ def f_isin(a, b):
 
 
 def _elementwise(a, f):
+    if isinstance(a, MaskedSel):
+        return MaskedSel([f(x) for x in a.full], a.mask)
     if _scal(a):
         return f(a)
     if _is_series(a):
@@ -721,7 +791,9 @@ def f_ceil(a): return _elementwise(a, _ceil)
 
 def f_round(a, decimals=0):
     if decimals != 0:
-        raise ShimGap('round with decimals')
+        # numpy: rint(x * 10**d) / 10**d
+        k = 10.0 ** decimals if decimals < 0 else float(10 ** decimals)
+        return _elementwise(a, lambda x: (_round(x * k) / k) if isinstance(x, (SymFloat, SymFP, float)) else x)
     return _elementwise(a, _round)
 
 
